@@ -147,7 +147,7 @@ def m_fmt(ex, st, fr, path, args, m):
     return Opaque("fmt")
 
 
-@model(r"^(alloc|std)::fmt::format$|^<(.*) as (?:std::string::)?ToString>::to_string$")
+@model(r"^(alloc|std)::fmt::format$|^<(?!str as |&str as |std::string::String as |String as )(.*) as (?:std::string::)?ToString>::to_string$")
 def m_format(ex, st, fr, path, args, m):
     # the text of messages / number renderings is not modelled: an opaque String of unknown content
     return VecObj([], "u8", 0, is_str=True)
@@ -978,7 +978,7 @@ def m_slice(ex, st, fr, path, args, m):
     return NotImplemented
 
 
-@model(r"^core::str::<impl str>::(len|is_empty|as_bytes|to_string|to_owned|as_ptr|bytes)$|^<str as (?:std::string::|alloc::string::)?ToString>::to_string$|^<str as (?:std::borrow::|alloc::borrow::)?ToOwned>::to_owned$|^<(?:std::string::)?String as (?:std::convert::)?From<&str>>::from$")
+@model(r"^core::str::<impl str>::(len|is_empty|as_bytes|to_string|to_owned|as_ptr|bytes|chars)$|^<str as (?:std::string::|alloc::string::)?ToString>::to_string$|^<str as (?:std::borrow::|alloc::borrow::)?ToOwned>::to_owned$|^<(?:std::string::)?String as (?:std::convert::)?From<&str>>::from$")
 def m_str(ex, st, fr, path, args, m):
     op = m.group(1) or "to_string"
     r = args[0]
@@ -994,6 +994,8 @@ def m_str(ex, st, fr, path, args, m):
         return VecObj(el[lo:hi], "u8", is_str=True)
     if op == "bytes":
         return IterV("slice_val", ref=slice_ref(r), pos=0, end=hi - lo)
+    if op == "chars":
+        return IterV("chars", ref=slice_ref(r), pos=0, end=hi - lo)
     return NotImplemented
 
 
@@ -1107,9 +1109,10 @@ def m_into_iter(ex, st, fr, path, args, m):
         if a.name == "Range":
             return IterV("range", cur=a.fields[0], end=a.fields[1])
         return IterV("range_incl", cur=a.fields[0], end=a.fields[1], done=False)
-    if isinstance(a, VecObj):
+    if isinstance(a, VecObj) or (isinstance(a, Agg) and a.kind == "array"):
         cell = Cell(a)
-        return IterV("slice_val", ref=Ref(cell, (), (0, len(a.elems))), pos=0, end=len(a.elems))
+        n = len(a.elems) if isinstance(a, VecObj) else len(a.fields)
+        return IterV("slice_val", ref=Ref(cell, (), (0, n)), pos=0, end=n)
     if isinstance(a, Ref):
         el, lo, hi = seq_of(a)
         return IterV("slice", ref=slice_ref(a), pos=0, end=hi - lo)
@@ -1205,6 +1208,14 @@ def iter_next(ex, st, it):
                 return o
             it.a = None
         return iter_next(ex, st, it.b)
+    if k == "chars":
+        if it.pos >= it.end:
+            return NONE()
+        b = deref_val(elem_ref(it.ref, it.pos))
+        if not ex.decide(st, binop("Lt", b, I("u8", 128))):
+            raise Unsupported("str::chars over non-ASCII bytes (UTF-8 decoding is not modelled)")
+        it.pos += 1
+        return some(cast_int(b, "char"))
     if k == "map":
         o = iter_next(ex, st, it.inner)
         if o.variant == "None":
